@@ -616,3 +616,13 @@ Proof.
   assert (K : (1 + u64) ^ 3 - 1 < 1) by nra.
   nra.
 Qed.
+
+(* a data-level sufficient condition for the squares: the entry of `x - y` is 0 or at least 2^-511 in magnitude *)
+Lemma normal64_sq d : d = 0 \/ / 2 ^ 511 <= Rabs d -> normal64 (d ^ 2).
+Proof.
+  intros [->|H]; [left; ring|]. right.
+  assert (P : 0 < / 2 ^ 511) by (apply Rinv_0_lt_compat; apply pow_lt; lra).
+  replace (/ 2 ^ 1022) with (/ 2 ^ 511 * / 2 ^ 511).
+  - rewrite <- RPow_abs. cbn [pow]. rewrite Rmult_1_r. nra.
+  - rewrite <- Rinv_mult. f_equal. rewrite <- pow_add. reflexivity.
+Qed.
